@@ -127,7 +127,7 @@ Qed.
 
 (* ---------------------------------------------------------------- realize *)
 
-Definition src_tag (w : world) (s : src) : Z :=
+Definition src_tag (w : world) (s : src) : pay :=
   match s with Keep a => tag_of w a | Dup a => tag_of w a | Fresh t => t end.
 
 Record realized (owner : option hid) (L : lid) (srcs : list src) (w : world) (ids : list aid) (w' : world) : Prop := mkRz {
